@@ -37,7 +37,7 @@ def timeout_grid(max_tmo):
 
 TSIZE_GRID = ["0", "1", "00", "", "-0", "+0", " 0", "0 ", "512", "0\n", "O"]
 
-KINDS = [("bytesio", 0), ("bytesio", 3), ("file", 0), ("file", 4), ("pipe",), ("noreg",)]
+KINDS = [("bytesio", 0), ("bytesio", 3), ("file", 0), ("file", 4), ("pipe",), ("noreg",), ("sized",)]
 # ("fileread", k): a real buffered file (open(path, "rb")) whose first k bytes the handler has READ (not seek()ed)
 # before returning it: the logical position is k while the descriptor offset is at the end of the read-ahead
 # buffer.  Model: KRealFile (k + len(content)) k true, as for ("file", k).
